@@ -20,7 +20,7 @@ macro "pstep_cases'" h:ident : tactic =>
              all_goals (first | subst $h:ident | (obtain ⟨_, $h:ident⟩ := $h:ident; subst $h:ident) | skip)))
 
 set_option maxHeartbeats 4000000 in
-theorem bwinv_step_callSend (s s' : St) (f v : _) (hk : s.kind = .bounded) (hcap : 0 < s.cap) (hb : BInv s) (hw : BWInv s) (hs : step s (.callSend f v) = some s') : BWInv s' := by
+theorem bwinv_step_callSend (s s' : St) (f v : _) (hk : s.kind = .bounded) (hcap : 0 < s.cap) (hb : BInv s) (hw : BWInv s) (hsp : s.spin = false) (hs : step s (.callSend f v) = some s') : BWInv s' := by
   have hW := hw
   have hrecv := hb.recv_id
   have hlh := hb.lowhigh
@@ -33,7 +33,7 @@ theorem bwinv_step_callSend (s s' : St) (f v : _) (hk : s.kind = .bounded) (hcap
   simp only [bavail] at havl
   obtain ⟨hp, w2, w3, w4, w5, w6, w7, w8, w9⟩ := hw
   obtain ⟨p1, p2, p3, p4, p5, p6, p7, p8, p9, p10, p11, p12⟩ := hp
-  simp only [step, hk] at hs
+  simp only [step, emptyPc, pubPc, hsp, Bool.false_eq_true, ↓reduceIte, hk] at hs
   repeat' (split at hs)
   all_goals (try simp at hs)
   all_goals (try contradiction)
@@ -41,7 +41,7 @@ theorem bwinv_step_callSend (s s' : St) (f v : _) (hk : s.kind = .bounded) (hcap
   all_goals (refine ⟨hW.pinv, ?_, ?_, ?_, ?_, ?_, ?_, ?_, ?_⟩ <;> bw_close)
 
 set_option maxHeartbeats 4000000 in
-theorem bwinv_step_woke (s s' : St) (f r : _) (hk : s.kind = .bounded) (hcap : 0 < s.cap) (hb : BInv s) (hw : BWInv s) (hs : step s (.woke f r) = some s') : BWInv s' := by
+theorem bwinv_step_woke (s s' : St) (f r : _) (hk : s.kind = .bounded) (hcap : 0 < s.cap) (hb : BInv s) (hw : BWInv s) (hsp : s.spin = false) (hs : step s (.woke f r) = some s') : BWInv s' := by
   have hW := hw
   have hrecv := hb.recv_id
   have hlh := hb.lowhigh
@@ -54,7 +54,7 @@ theorem bwinv_step_woke (s s' : St) (f r : _) (hk : s.kind = .bounded) (hcap : 0
   simp only [bavail] at havl
   obtain ⟨hp, w2, w3, w4, w5, w6, w7, w8, w9⟩ := hw
   obtain ⟨p1, p2, p3, p4, p5, p6, p7, p8, p9, p10, p11, p12⟩ := hp
-  simp only [step, hk] at hs
+  simp only [step, emptyPc, pubPc, hsp, Bool.false_eq_true, ↓reduceIte, hk] at hs
   repeat' (split at hs)
   all_goals (try simp at hs)
   all_goals (try contradiction)
@@ -62,7 +62,7 @@ theorem bwinv_step_woke (s s' : St) (f r : _) (hk : s.kind = .bounded) (hcap : 0
   all_goals (refine ⟨hW.pinv, ?_, ?_, ?_, ?_, ?_, ?_, ?_, ?_⟩ <;> bw_close)
 
 set_option maxHeartbeats 4000000 in
-theorem bwinv_step_retSend (s s' : St) (f : _) (hk : s.kind = .bounded) (hcap : 0 < s.cap) (hb : BInv s) (hw : BWInv s) (hs : step s (.retSend f) = some s') : BWInv s' := by
+theorem bwinv_step_retSend (s s' : St) (f : _) (hk : s.kind = .bounded) (hcap : 0 < s.cap) (hb : BInv s) (hw : BWInv s) (hsp : s.spin = false) (hs : step s (.retSend f) = some s') : BWInv s' := by
   have hW := hw
   have hrecv := hb.recv_id
   have hlh := hb.lowhigh
@@ -75,7 +75,7 @@ theorem bwinv_step_retSend (s s' : St) (f : _) (hk : s.kind = .bounded) (hcap : 
   simp only [bavail] at havl
   obtain ⟨hp, w2, w3, w4, w5, w6, w7, w8, w9⟩ := hw
   obtain ⟨p1, p2, p3, p4, p5, p6, p7, p8, p9, p10, p11, p12⟩ := hp
-  simp only [step, hk] at hs
+  simp only [step, emptyPc, pubPc, hsp, Bool.false_eq_true, ↓reduceIte, hk] at hs
   repeat' (split at hs)
   all_goals (try simp at hs)
   all_goals (try contradiction)
@@ -83,7 +83,7 @@ theorem bwinv_step_retSend (s s' : St) (f : _) (hk : s.kind = .bounded) (hcap : 
   all_goals (refine ⟨hW.pinv, ?_, ?_, ?_, ?_, ?_, ?_, ?_, ?_⟩ <;> bw_close)
 
 set_option maxHeartbeats 4000000 in
-theorem bwinv_step_callRecv (s s' : St) (f : _) (hk : s.kind = .bounded) (hcap : 0 < s.cap) (hb : BInv s) (hw : BWInv s) (hs : step s (.callRecv f) = some s') : BWInv s' := by
+theorem bwinv_step_callRecv (s s' : St) (f : _) (hk : s.kind = .bounded) (hcap : 0 < s.cap) (hb : BInv s) (hw : BWInv s) (hsp : s.spin = false) (hs : step s (.callRecv f) = some s') : BWInv s' := by
   have hW := hw
   have hrecv := hb.recv_id
   have hlh := hb.lowhigh
@@ -96,7 +96,7 @@ theorem bwinv_step_callRecv (s s' : St) (f : _) (hk : s.kind = .bounded) (hcap :
   simp only [bavail] at havl
   obtain ⟨hp, w2, w3, w4, w5, w6, w7, w8, w9⟩ := hw
   obtain ⟨p1, p2, p3, p4, p5, p6, p7, p8, p9, p10, p11, p12⟩ := hp
-  simp only [step, hk] at hs
+  simp only [step, emptyPc, pubPc, hsp, Bool.false_eq_true, ↓reduceIte, hk] at hs
   repeat' (split at hs)
   all_goals (try simp at hs)
   all_goals (try contradiction)
@@ -104,7 +104,7 @@ theorem bwinv_step_callRecv (s s' : St) (f : _) (hk : s.kind = .bounded) (hcap :
   all_goals (refine ⟨hW.pinv, ?_, ?_, ?_, ?_, ?_, ?_, ?_, ?_⟩ <;> bw_close)
 
 set_option maxHeartbeats 4000000 in
-theorem bwinv_step_retRecv (s s' : St) (f v : _) (hk : s.kind = .bounded) (hcap : 0 < s.cap) (hb : BInv s) (hw : BWInv s) (hs : step s (.retRecv f v) = some s') : BWInv s' := by
+theorem bwinv_step_callTry (s s' : St) (f : _) (hk : s.kind = .bounded) (hcap : 0 < s.cap) (hb : BInv s) (hw : BWInv s) (hsp : s.spin = false) (hs : step s (.callTry f) = some s') : BWInv s' := by
   have hW := hw
   have hrecv := hb.recv_id
   have hlh := hb.lowhigh
@@ -117,7 +117,7 @@ theorem bwinv_step_retRecv (s s' : St) (f v : _) (hk : s.kind = .bounded) (hcap 
   simp only [bavail] at havl
   obtain ⟨hp, w2, w3, w4, w5, w6, w7, w8, w9⟩ := hw
   obtain ⟨p1, p2, p3, p4, p5, p6, p7, p8, p9, p10, p11, p12⟩ := hp
-  simp only [step, hk] at hs
+  simp only [step, emptyPc, pubPc, hsp, Bool.false_eq_true, ↓reduceIte, hk] at hs
   repeat' (split at hs)
   all_goals (try simp at hs)
   all_goals (try contradiction)
@@ -125,7 +125,7 @@ theorem bwinv_step_retRecv (s s' : St) (f v : _) (hk : s.kind = .bounded) (hcap 
   all_goals (refine ⟨hW.pinv, ?_, ?_, ?_, ?_, ?_, ?_, ?_, ?_⟩ <;> bw_close)
 
 set_option maxHeartbeats 4000000 in
-theorem bwinv_step_ldLow (s s' : St) (f l : _) (hk : s.kind = .bounded) (hcap : 0 < s.cap) (hb : BInv s) (hw : BWInv s) (hs : step s (.ldLow f l) = some s') : BWInv s' := by
+theorem bwinv_step_retRecv (s s' : St) (f v : _) (hk : s.kind = .bounded) (hcap : 0 < s.cap) (hb : BInv s) (hw : BWInv s) (hsp : s.spin = false) (hs : step s (.retRecv f v) = some s') : BWInv s' := by
   have hW := hw
   have hrecv := hb.recv_id
   have hlh := hb.lowhigh
@@ -138,7 +138,7 @@ theorem bwinv_step_ldLow (s s' : St) (f l : _) (hk : s.kind = .bounded) (hcap : 
   simp only [bavail] at havl
   obtain ⟨hp, w2, w3, w4, w5, w6, w7, w8, w9⟩ := hw
   obtain ⟨p1, p2, p3, p4, p5, p6, p7, p8, p9, p10, p11, p12⟩ := hp
-  simp only [step, hk] at hs
+  simp only [step, emptyPc, pubPc, hsp, Bool.false_eq_true, ↓reduceIte, hk] at hs
   repeat' (split at hs)
   all_goals (try simp at hs)
   all_goals (try contradiction)
@@ -146,7 +146,7 @@ theorem bwinv_step_ldLow (s s' : St) (f l : _) (hk : s.kind = .bounded) (hcap : 
   all_goals (refine ⟨hW.pinv, ?_, ?_, ?_, ?_, ?_, ?_, ?_, ?_⟩ <;> bw_close)
 
 set_option maxHeartbeats 4000000 in
-theorem bwinv_step_ldHigh (s s' : St) (f h : _) (hk : s.kind = .bounded) (hcap : 0 < s.cap) (hb : BInv s) (hw : BWInv s) (hs : step s (.ldHigh f h) = some s') : BWInv s' := by
+theorem bwinv_step_ldLow (s s' : St) (f l : _) (hk : s.kind = .bounded) (hcap : 0 < s.cap) (hb : BInv s) (hw : BWInv s) (hsp : s.spin = false) (hs : step s (.ldLow f l) = some s') : BWInv s' := by
   have hW := hw
   have hrecv := hb.recv_id
   have hlh := hb.lowhigh
@@ -159,7 +159,7 @@ theorem bwinv_step_ldHigh (s s' : St) (f h : _) (hk : s.kind = .bounded) (hcap :
   simp only [bavail] at havl
   obtain ⟨hp, w2, w3, w4, w5, w6, w7, w8, w9⟩ := hw
   obtain ⟨p1, p2, p3, p4, p5, p6, p7, p8, p9, p10, p11, p12⟩ := hp
-  simp only [step, hk] at hs
+  simp only [step, emptyPc, pubPc, hsp, Bool.false_eq_true, ↓reduceIte, hk] at hs
   repeat' (split at hs)
   all_goals (try simp at hs)
   all_goals (try contradiction)
@@ -167,7 +167,7 @@ theorem bwinv_step_ldHigh (s s' : St) (f h : _) (hk : s.kind = .bounded) (hcap :
   all_goals (refine ⟨hW.pinv, ?_, ?_, ?_, ?_, ?_, ?_, ?_, ?_⟩ <;> bw_close)
 
 set_option maxHeartbeats 4000000 in
-theorem bwinv_step_rBuf (s s' : St) (f i x : _) (hk : s.kind = .bounded) (hcap : 0 < s.cap) (hb : BInv s) (hw : BWInv s) (hs : step s (.rBuf f i x) = some s') : BWInv s' := by
+theorem bwinv_step_ldHigh (s s' : St) (f h : _) (hk : s.kind = .bounded) (hcap : 0 < s.cap) (hb : BInv s) (hw : BWInv s) (hsp : s.spin = false) (hs : step s (.ldHigh f h) = some s') : BWInv s' := by
   have hW := hw
   have hrecv := hb.recv_id
   have hlh := hb.lowhigh
@@ -180,7 +180,7 @@ theorem bwinv_step_rBuf (s s' : St) (f i x : _) (hk : s.kind = .bounded) (hcap :
   simp only [bavail] at havl
   obtain ⟨hp, w2, w3, w4, w5, w6, w7, w8, w9⟩ := hw
   obtain ⟨p1, p2, p3, p4, p5, p6, p7, p8, p9, p10, p11, p12⟩ := hp
-  simp only [step, hk] at hs
+  simp only [step, emptyPc, pubPc, hsp, Bool.false_eq_true, ↓reduceIte, hk] at hs
   repeat' (split at hs)
   all_goals (try simp at hs)
   all_goals (try contradiction)
@@ -188,7 +188,7 @@ theorem bwinv_step_rBuf (s s' : St) (f i x : _) (hk : s.kind = .bounded) (hcap :
   all_goals (refine ⟨hW.pinv, ?_, ?_, ?_, ?_, ?_, ?_, ?_, ?_⟩ <;> bw_close)
 
 set_option maxHeartbeats 4000000 in
-theorem bwinv_step_casHigh (s s' : St) (f a b c ok : _) (hk : s.kind = .bounded) (hcap : 0 < s.cap) (hb : BInv s) (hw : BWInv s) (hs : step s (.casHigh f a b c ok) = some s') : BWInv s' := by
+theorem bwinv_step_rBuf (s s' : St) (f i x : _) (hk : s.kind = .bounded) (hcap : 0 < s.cap) (hb : BInv s) (hw : BWInv s) (hsp : s.spin = false) (hs : step s (.rBuf f i x) = some s') : BWInv s' := by
   have hW := hw
   have hrecv := hb.recv_id
   have hlh := hb.lowhigh
@@ -201,7 +201,7 @@ theorem bwinv_step_casHigh (s s' : St) (f a b c ok : _) (hk : s.kind = .bounded)
   simp only [bavail] at havl
   obtain ⟨hp, w2, w3, w4, w5, w6, w7, w8, w9⟩ := hw
   obtain ⟨p1, p2, p3, p4, p5, p6, p7, p8, p9, p10, p11, p12⟩ := hp
-  simp only [step, hk] at hs
+  simp only [step, emptyPc, pubPc, hsp, Bool.false_eq_true, ↓reduceIte, hk] at hs
   repeat' (split at hs)
   all_goals (try simp at hs)
   all_goals (try contradiction)
@@ -209,7 +209,7 @@ theorem bwinv_step_casHigh (s s' : St) (f a b c ok : _) (hk : s.kind = .bounded)
   all_goals (refine ⟨hW.pinv, ?_, ?_, ?_, ?_, ?_, ?_, ?_, ?_⟩ <;> bw_close)
 
 set_option maxHeartbeats 4000000 in
-theorem bwinv_step_wBuf (s s' : St) (f i x : _) (hk : s.kind = .bounded) (hcap : 0 < s.cap) (hb : BInv s) (hw : BWInv s) (hs : step s (.wBuf f i x) = some s') : BWInv s' := by
+theorem bwinv_step_casHigh (s s' : St) (f a b c ok : _) (hk : s.kind = .bounded) (hcap : 0 < s.cap) (hb : BInv s) (hw : BWInv s) (hsp : s.spin = false) (hs : step s (.casHigh f a b c ok) = some s') : BWInv s' := by
   have hW := hw
   have hrecv := hb.recv_id
   have hlh := hb.lowhigh
@@ -222,7 +222,7 @@ theorem bwinv_step_wBuf (s s' : St) (f i x : _) (hk : s.kind = .bounded) (hcap :
   simp only [bavail] at havl
   obtain ⟨hp, w2, w3, w4, w5, w6, w7, w8, w9⟩ := hw
   obtain ⟨p1, p2, p3, p4, p5, p6, p7, p8, p9, p10, p11, p12⟩ := hp
-  simp only [step, hk] at hs
+  simp only [step, emptyPc, pubPc, hsp, Bool.false_eq_true, ↓reduceIte, hk] at hs
   repeat' (split at hs)
   all_goals (try simp at hs)
   all_goals (try contradiction)
@@ -230,7 +230,7 @@ theorem bwinv_step_wBuf (s s' : St) (f i x : _) (hk : s.kind = .bounded) (hcap :
   all_goals (refine ⟨hW.pinv, ?_, ?_, ?_, ?_, ?_, ?_, ?_, ?_⟩ <;> bw_close)
 
 set_option maxHeartbeats 4000000 in
-theorem bwinv_step_stLow (s s' : St) (f l : _) (hk : s.kind = .bounded) (hcap : 0 < s.cap) (hb : BInv s) (hw : BWInv s) (hs : step s (.stLow f l) = some s') : BWInv s' := by
+theorem bwinv_step_wBuf (s s' : St) (f i x : _) (hk : s.kind = .bounded) (hcap : 0 < s.cap) (hb : BInv s) (hw : BWInv s) (hsp : s.spin = false) (hs : step s (.wBuf f i x) = some s') : BWInv s' := by
   have hW := hw
   have hrecv := hb.recv_id
   have hlh := hb.lowhigh
@@ -243,7 +243,7 @@ theorem bwinv_step_stLow (s s' : St) (f l : _) (hk : s.kind = .bounded) (hcap : 
   simp only [bavail] at havl
   obtain ⟨hp, w2, w3, w4, w5, w6, w7, w8, w9⟩ := hw
   obtain ⟨p1, p2, p3, p4, p5, p6, p7, p8, p9, p10, p11, p12⟩ := hp
-  simp only [step, hk] at hs
+  simp only [step, emptyPc, pubPc, hsp, Bool.false_eq_true, ↓reduceIte, hk] at hs
   repeat' (split at hs)
   all_goals (try simp at hs)
   all_goals (try contradiction)
@@ -251,7 +251,7 @@ theorem bwinv_step_stLow (s s' : St) (f l : _) (hk : s.kind = .bounded) (hcap : 
   all_goals (refine ⟨hW.pinv, ?_, ?_, ?_, ?_, ?_, ?_, ?_, ?_⟩ <;> bw_close)
 
 set_option maxHeartbeats 4000000 in
-theorem bwinv_step_wNext (s s' : St) (f n x : _) (hk : s.kind = .bounded) (hcap : 0 < s.cap) (hb : BInv s) (hw : BWInv s) (hs : step s (.wNext f n x) = some s') : BWInv s' := by
+theorem bwinv_step_stLow (s s' : St) (f l : _) (hk : s.kind = .bounded) (hcap : 0 < s.cap) (hb : BInv s) (hw : BWInv s) (hsp : s.spin = false) (hs : step s (.stLow f l) = some s') : BWInv s' := by
   have hW := hw
   have hrecv := hb.recv_id
   have hlh := hb.lowhigh
@@ -264,7 +264,7 @@ theorem bwinv_step_wNext (s s' : St) (f n x : _) (hk : s.kind = .bounded) (hcap 
   simp only [bavail] at havl
   obtain ⟨hp, w2, w3, w4, w5, w6, w7, w8, w9⟩ := hw
   obtain ⟨p1, p2, p3, p4, p5, p6, p7, p8, p9, p10, p11, p12⟩ := hp
-  simp only [step, hk] at hs
+  simp only [step, emptyPc, pubPc, hsp, Bool.false_eq_true, ↓reduceIte, hk] at hs
   repeat' (split at hs)
   all_goals (try simp at hs)
   all_goals (try contradiction)
@@ -272,7 +272,7 @@ theorem bwinv_step_wNext (s s' : St) (f n x : _) (hk : s.kind = .bounded) (hcap 
   all_goals (refine ⟨hW.pinv, ?_, ?_, ?_, ?_, ?_, ?_, ?_, ?_⟩ <;> bw_close)
 
 set_option maxHeartbeats 4000000 in
-theorem bwinv_step_xchgTail (s s' : St) (f o n : _) (hk : s.kind = .bounded) (hcap : 0 < s.cap) (hb : BInv s) (hw : BWInv s) (hs : step s (.xchgTail f o n) = some s') : BWInv s' := by
+theorem bwinv_step_wNext (s s' : St) (f n x : _) (hk : s.kind = .bounded) (hcap : 0 < s.cap) (hb : BInv s) (hw : BWInv s) (hsp : s.spin = false) (hs : step s (.wNext f n x) = some s') : BWInv s' := by
   have hW := hw
   have hrecv := hb.recv_id
   have hlh := hb.lowhigh
@@ -285,7 +285,7 @@ theorem bwinv_step_xchgTail (s s' : St) (f o n : _) (hk : s.kind = .bounded) (hc
   simp only [bavail] at havl
   obtain ⟨hp, w2, w3, w4, w5, w6, w7, w8, w9⟩ := hw
   obtain ⟨p1, p2, p3, p4, p5, p6, p7, p8, p9, p10, p11, p12⟩ := hp
-  simp only [step, hk] at hs
+  simp only [step, emptyPc, pubPc, hsp, Bool.false_eq_true, ↓reduceIte, hk] at hs
   repeat' (split at hs)
   all_goals (try simp at hs)
   all_goals (try contradiction)
@@ -293,7 +293,7 @@ theorem bwinv_step_xchgTail (s s' : St) (f o n : _) (hk : s.kind = .bounded) (hc
   all_goals (refine ⟨hW.pinv, ?_, ?_, ?_, ?_, ?_, ?_, ?_, ?_⟩ <;> bw_close)
 
 set_option maxHeartbeats 4000000 in
-theorem bwinv_step_ldTail (s s' : St) (f t : _) (hk : s.kind = .bounded) (hcap : 0 < s.cap) (hb : BInv s) (hw : BWInv s) (hs : step s (.ldTail f t) = some s') : BWInv s' := by
+theorem bwinv_step_xchgTail (s s' : St) (f o n : _) (hk : s.kind = .bounded) (hcap : 0 < s.cap) (hb : BInv s) (hw : BWInv s) (hsp : s.spin = false) (hs : step s (.xchgTail f o n) = some s') : BWInv s' := by
   have hW := hw
   have hrecv := hb.recv_id
   have hlh := hb.lowhigh
@@ -306,7 +306,7 @@ theorem bwinv_step_ldTail (s s' : St) (f t : _) (hk : s.kind = .bounded) (hcap :
   simp only [bavail] at havl
   obtain ⟨hp, w2, w3, w4, w5, w6, w7, w8, w9⟩ := hw
   obtain ⟨p1, p2, p3, p4, p5, p6, p7, p8, p9, p10, p11, p12⟩ := hp
-  simp only [step, hk] at hs
+  simp only [step, emptyPc, pubPc, hsp, Bool.false_eq_true, ↓reduceIte, hk] at hs
   repeat' (split at hs)
   all_goals (try simp at hs)
   all_goals (try contradiction)
@@ -314,7 +314,7 @@ theorem bwinv_step_ldTail (s s' : St) (f t : _) (hk : s.kind = .bounded) (hcap :
   all_goals (refine ⟨hW.pinv, ?_, ?_, ?_, ?_, ?_, ?_, ?_, ?_⟩ <;> bw_close)
 
 set_option maxHeartbeats 4000000 in
-theorem bwinv_step_stTail (s s' : St) (f n : _) (hk : s.kind = .bounded) (hcap : 0 < s.cap) (hb : BInv s) (hw : BWInv s) (hs : step s (.stTail f n) = some s') : BWInv s' := by
+theorem bwinv_step_ldTail (s s' : St) (f t : _) (hk : s.kind = .bounded) (hcap : 0 < s.cap) (hb : BInv s) (hw : BWInv s) (hsp : s.spin = false) (hs : step s (.ldTail f t) = some s') : BWInv s' := by
   have hW := hw
   have hrecv := hb.recv_id
   have hlh := hb.lowhigh
@@ -327,7 +327,7 @@ theorem bwinv_step_stTail (s s' : St) (f n : _) (hk : s.kind = .bounded) (hcap :
   simp only [bavail] at havl
   obtain ⟨hp, w2, w3, w4, w5, w6, w7, w8, w9⟩ := hw
   obtain ⟨p1, p2, p3, p4, p5, p6, p7, p8, p9, p10, p11, p12⟩ := hp
-  simp only [step, hk] at hs
+  simp only [step, emptyPc, pubPc, hsp, Bool.false_eq_true, ↓reduceIte, hk] at hs
   repeat' (split at hs)
   all_goals (try simp at hs)
   all_goals (try contradiction)
@@ -335,7 +335,7 @@ theorem bwinv_step_stTail (s s' : St) (f n : _) (hk : s.kind = .bounded) (hcap :
   all_goals (refine ⟨hW.pinv, ?_, ?_, ?_, ?_, ?_, ?_, ?_, ?_⟩ <;> bw_close)
 
 set_option maxHeartbeats 4000000 in
-theorem bwinv_step_rHead (s s' : St) (f h : _) (hk : s.kind = .bounded) (hcap : 0 < s.cap) (hb : BInv s) (hw : BWInv s) (hs : step s (.rHead f h) = some s') : BWInv s' := by
+theorem bwinv_step_stTail (s s' : St) (f n : _) (hk : s.kind = .bounded) (hcap : 0 < s.cap) (hb : BInv s) (hw : BWInv s) (hsp : s.spin = false) (hs : step s (.stTail f n) = some s') : BWInv s' := by
   have hW := hw
   have hrecv := hb.recv_id
   have hlh := hb.lowhigh
@@ -348,7 +348,7 @@ theorem bwinv_step_rHead (s s' : St) (f h : _) (hk : s.kind = .bounded) (hcap : 
   simp only [bavail] at havl
   obtain ⟨hp, w2, w3, w4, w5, w6, w7, w8, w9⟩ := hw
   obtain ⟨p1, p2, p3, p4, p5, p6, p7, p8, p9, p10, p11, p12⟩ := hp
-  simp only [step, hk] at hs
+  simp only [step, emptyPc, pubPc, hsp, Bool.false_eq_true, ↓reduceIte, hk] at hs
   repeat' (split at hs)
   all_goals (try simp at hs)
   all_goals (try contradiction)
@@ -356,7 +356,7 @@ theorem bwinv_step_rHead (s s' : St) (f h : _) (hk : s.kind = .bounded) (hcap : 
   all_goals (refine ⟨hW.pinv, ?_, ?_, ?_, ?_, ?_, ?_, ?_, ?_⟩ <;> bw_close)
 
 set_option maxHeartbeats 4000000 in
-theorem bwinv_step_wHead (s s' : St) (f x : _) (hk : s.kind = .bounded) (hcap : 0 < s.cap) (hb : BInv s) (hw : BWInv s) (hs : step s (.wHead f x) = some s') : BWInv s' := by
+theorem bwinv_step_rHead (s s' : St) (f h : _) (hk : s.kind = .bounded) (hcap : 0 < s.cap) (hb : BInv s) (hw : BWInv s) (hsp : s.spin = false) (hs : step s (.rHead f h) = some s') : BWInv s' := by
   have hW := hw
   have hrecv := hb.recv_id
   have hlh := hb.lowhigh
@@ -369,7 +369,7 @@ theorem bwinv_step_wHead (s s' : St) (f x : _) (hk : s.kind = .bounded) (hcap : 
   simp only [bavail] at havl
   obtain ⟨hp, w2, w3, w4, w5, w6, w7, w8, w9⟩ := hw
   obtain ⟨p1, p2, p3, p4, p5, p6, p7, p8, p9, p10, p11, p12⟩ := hp
-  simp only [step, hk] at hs
+  simp only [step, emptyPc, pubPc, hsp, Bool.false_eq_true, ↓reduceIte, hk] at hs
   repeat' (split at hs)
   all_goals (try simp at hs)
   all_goals (try contradiction)
@@ -377,7 +377,7 @@ theorem bwinv_step_wHead (s s' : St) (f x : _) (hk : s.kind = .bounded) (hcap : 
   all_goals (refine ⟨hW.pinv, ?_, ?_, ?_, ?_, ?_, ?_, ?_, ?_⟩ <;> bw_close)
 
 set_option maxHeartbeats 4000000 in
-theorem bwinv_step_rNext (s s' : St) (f n x : _) (hk : s.kind = .bounded) (hcap : 0 < s.cap) (hb : BInv s) (hw : BWInv s) (hs : step s (.rNext f n x) = some s') : BWInv s' := by
+theorem bwinv_step_wHead (s s' : St) (f x : _) (hk : s.kind = .bounded) (hcap : 0 < s.cap) (hb : BInv s) (hw : BWInv s) (hsp : s.spin = false) (hs : step s (.wHead f x) = some s') : BWInv s' := by
   have hW := hw
   have hrecv := hb.recv_id
   have hlh := hb.lowhigh
@@ -390,7 +390,7 @@ theorem bwinv_step_rNext (s s' : St) (f n x : _) (hk : s.kind = .bounded) (hcap 
   simp only [bavail] at havl
   obtain ⟨hp, w2, w3, w4, w5, w6, w7, w8, w9⟩ := hw
   obtain ⟨p1, p2, p3, p4, p5, p6, p7, p8, p9, p10, p11, p12⟩ := hp
-  simp only [step, hk] at hs
+  simp only [step, emptyPc, pubPc, hsp, Bool.false_eq_true, ↓reduceIte, hk] at hs
   repeat' (split at hs)
   all_goals (try simp at hs)
   all_goals (try contradiction)
@@ -398,7 +398,7 @@ theorem bwinv_step_rNext (s s' : St) (f n x : _) (hk : s.kind = .bounded) (hcap 
   all_goals (refine ⟨hW.pinv, ?_, ?_, ?_, ?_, ?_, ?_, ?_, ?_⟩ <;> bw_close)
 
 set_option maxHeartbeats 4000000 in
-theorem bwinv_step_rData (s s' : St) (f n d : _) (hk : s.kind = .bounded) (hcap : 0 < s.cap) (hb : BInv s) (hw : BWInv s) (hs : step s (.rData f n d) = some s') : BWInv s' := by
+theorem bwinv_step_rNext (s s' : St) (f n x : _) (hk : s.kind = .bounded) (hcap : 0 < s.cap) (hb : BInv s) (hw : BWInv s) (hsp : s.spin = false) (hs : step s (.rNext f n x) = some s') : BWInv s' := by
   have hW := hw
   have hrecv := hb.recv_id
   have hlh := hb.lowhigh
@@ -411,7 +411,7 @@ theorem bwinv_step_rData (s s' : St) (f n d : _) (hk : s.kind = .bounded) (hcap 
   simp only [bavail] at havl
   obtain ⟨hp, w2, w3, w4, w5, w6, w7, w8, w9⟩ := hw
   obtain ⟨p1, p2, p3, p4, p5, p6, p7, p8, p9, p10, p11, p12⟩ := hp
-  simp only [step, hk] at hs
+  simp only [step, emptyPc, pubPc, hsp, Bool.false_eq_true, ↓reduceIte, hk] at hs
   repeat' (split at hs)
   all_goals (try simp at hs)
   all_goals (try contradiction)
@@ -419,7 +419,7 @@ theorem bwinv_step_rData (s s' : St) (f n d : _) (hk : s.kind = .bounded) (hcap 
   all_goals (refine ⟨hW.pinv, ?_, ?_, ?_, ?_, ?_, ?_, ?_, ?_⟩ <;> bw_close)
 
 set_option maxHeartbeats 4000000 in
-theorem bwinv_step_wData (s s' : St) (f n d : _) (hk : s.kind = .bounded) (hcap : 0 < s.cap) (hb : BInv s) (hw : BWInv s) (hs : step s (.wData f n d) = some s') : BWInv s' := by
+theorem bwinv_step_rData (s s' : St) (f n d : _) (hk : s.kind = .bounded) (hcap : 0 < s.cap) (hb : BInv s) (hw : BWInv s) (hsp : s.spin = false) (hs : step s (.rData f n d) = some s') : BWInv s' := by
   have hW := hw
   have hrecv := hb.recv_id
   have hlh := hb.lowhigh
@@ -432,7 +432,28 @@ theorem bwinv_step_wData (s s' : St) (f n d : _) (hk : s.kind = .bounded) (hcap 
   simp only [bavail] at havl
   obtain ⟨hp, w2, w3, w4, w5, w6, w7, w8, w9⟩ := hw
   obtain ⟨p1, p2, p3, p4, p5, p6, p7, p8, p9, p10, p11, p12⟩ := hp
-  simp only [step, hk] at hs
+  simp only [step, emptyPc, pubPc, hsp, Bool.false_eq_true, ↓reduceIte, hk] at hs
+  repeat' (split at hs)
+  all_goals (try simp at hs)
+  all_goals (try contradiction)
+  all_goals (first | subst hs | (obtain ⟨_, hs⟩ := hs; subst hs))
+  all_goals (refine ⟨hW.pinv, ?_, ?_, ?_, ?_, ?_, ?_, ?_, ?_⟩ <;> bw_close)
+
+set_option maxHeartbeats 4000000 in
+theorem bwinv_step_wData (s s' : St) (f n d : _) (hk : s.kind = .bounded) (hcap : 0 < s.cap) (hb : BInv s) (hw : BWInv s) (hsp : s.spin = false) (hs : step s (.wData f n d) = some s') : BWInv s' := by
+  have hW := hw
+  have hrecv := hb.recv_id
+  have hlh := hb.lowhigh
+  have h14 := hb.rLdHigh_le
+  have h15 := hb.rLdLow_eq
+  have h16 := hb.rRdBuf_eq
+  have h17 := hb.rCleared_eq
+  have h8 := hb.claimed
+  have havl := fun (ha : bavail s) => bavail_lt hb hcap ha
+  simp only [bavail] at havl
+  obtain ⟨hp, w2, w3, w4, w5, w6, w7, w8, w9⟩ := hw
+  obtain ⟨p1, p2, p3, p4, p5, p6, p7, p8, p9, p10, p11, p12⟩ := hp
+  simp only [step, emptyPc, pubPc, hsp, Bool.false_eq_true, ↓reduceIte, hk] at hs
   repeat' (split at hs)
   all_goals (try simp at hs)
   all_goals (try contradiction)
@@ -636,7 +657,7 @@ theorem bwinv_step_p_setWait (s s' : St) (g f : Nat) (hk : s.kind = .bounded) (h
   all_goals (refine ⟨hp', ?_, ?_, ?_, ?_, ?_, ?_, ?_, ?_⟩ <;> bw_close)
 
 theorem bwinv_step (s s' : St) (e : Ev) (hk : s.kind = .bounded) (hcap : 0 < s.cap) (hb : BInv s) (hw : BWInv s)
-    (hs : step s e = some s') : BWInv s' := by
+    (hsp : s.spin = false) (hs : step s e = some s') : BWInv s' := by
   cases e with
   | p pe =>
     cases pe with
@@ -652,36 +673,39 @@ theorem bwinv_step (s s' : St) (e : Ev) (hk : s.kind = .bounded) (hcap : 0 < s.c
     | stNone f => exact bwinv_step_p_stNone s s' f hk hcap hb hw hs
     | rScratch f g r => exact bwinv_step_p_rScratch s s' f g r hk hcap hb hw hs
     | wStateReady f g => exact bwinv_step_p_wStateReady s s' f g hk hcap hb hw hs
-  | callSend f v => exact bwinv_step_callSend s s' f v hk hcap hb hw hs
-  | woke f r => exact bwinv_step_woke s s' f r hk hcap hb hw hs
-  | retSend f => exact bwinv_step_retSend s s' f hk hcap hb hw hs
-  | callRecv f => exact bwinv_step_callRecv s s' f hk hcap hb hw hs
-  | retRecv f v => exact bwinv_step_retRecv s s' f v hk hcap hb hw hs
-  | ldLow f l => exact bwinv_step_ldLow s s' f l hk hcap hb hw hs
-  | ldHigh f h => exact bwinv_step_ldHigh s s' f h hk hcap hb hw hs
-  | rBuf f i x => exact bwinv_step_rBuf s s' f i x hk hcap hb hw hs
-  | casHigh f a b c ok => exact bwinv_step_casHigh s s' f a b c ok hk hcap hb hw hs
-  | wBuf f i x => exact bwinv_step_wBuf s s' f i x hk hcap hb hw hs
-  | stLow f l => exact bwinv_step_stLow s s' f l hk hcap hb hw hs
-  | wNext f n x => exact bwinv_step_wNext s s' f n x hk hcap hb hw hs
-  | xchgTail f o n => exact bwinv_step_xchgTail s s' f o n hk hcap hb hw hs
-  | ldTail f t => exact bwinv_step_ldTail s s' f t hk hcap hb hw hs
-  | stTail f n => exact bwinv_step_stTail s s' f n hk hcap hb hw hs
-  | rHead f h => exact bwinv_step_rHead s s' f h hk hcap hb hw hs
-  | wHead f x => exact bwinv_step_wHead s s' f x hk hcap hb hw hs
-  | rNext f n x => exact bwinv_step_rNext s s' f n x hk hcap hb hw hs
-  | rData f n d => exact bwinv_step_rData s s' f n d hk hcap hb hw hs
-  | wData f n d => exact bwinv_step_wData s s' f n d hk hcap hb hw hs
+  | callSend f v => exact bwinv_step_callSend s s' f v hk hcap hb hw hsp hs
+  | woke f r => exact bwinv_step_woke s s' f r hk hcap hb hw hsp hs
+  | retSend f => exact bwinv_step_retSend s s' f hk hcap hb hw hsp hs
+  | callRecv f => exact bwinv_step_callRecv s s' f hk hcap hb hw hsp hs
+  | callTry f => exact bwinv_step_callTry s s' f hk hcap hb hw hsp hs
+  | retRecv f v => exact bwinv_step_retRecv s s' f v hk hcap hb hw hsp hs
+  | ldLow f l => exact bwinv_step_ldLow s s' f l hk hcap hb hw hsp hs
+  | ldHigh f h => exact bwinv_step_ldHigh s s' f h hk hcap hb hw hsp hs
+  | rBuf f i x => exact bwinv_step_rBuf s s' f i x hk hcap hb hw hsp hs
+  | casHigh f a b c ok => exact bwinv_step_casHigh s s' f a b c ok hk hcap hb hw hsp hs
+  | wBuf f i x => exact bwinv_step_wBuf s s' f i x hk hcap hb hw hsp hs
+  | stLow f l => exact bwinv_step_stLow s s' f l hk hcap hb hw hsp hs
+  | wNext f n x => exact bwinv_step_wNext s s' f n x hk hcap hb hw hsp hs
+  | xchgTail f o n => exact bwinv_step_xchgTail s s' f o n hk hcap hb hw hsp hs
+  | ldTail f t => exact bwinv_step_ldTail s s' f t hk hcap hb hw hsp hs
+  | stTail f n => exact bwinv_step_stTail s s' f n hk hcap hb hw hsp hs
+  | rHead f h => exact bwinv_step_rHead s s' f h hk hcap hb hw hsp hs
+  | wHead f x => exact bwinv_step_wHead s s' f x hk hcap hb hw hsp hs
+  | rNext f n x => exact bwinv_step_rNext s s' f n x hk hcap hb hw hsp hs
+  | rData f n d => exact bwinv_step_rData s s' f n d hk hcap hb hw hsp hs
+  | wData f n d => exact bwinv_step_wData s s' f n d hk hcap hb hw hsp hs
 
 theorem bwinv_of_run {cap : Nat} (hcap : 0 < cap) {es : List Ev} {s : St}
-    (h : (sys .bounded cap).run es = some s) : BWInv s := by
-  have : (s.kind = .bounded ∧ s.cap = cap) ∧ BInv s ∧ BWInv s :=
-    Sys.inv_of_run (sys .bounded cap) (fun s => (s.kind = .bounded ∧ s.cap = cap) ∧ BInv s ∧ BWInv s)
-      ⟨⟨rfl, rfl⟩, binv_init cap, bwinv_init cap⟩
+    (h : (sysM false .bounded cap).run es = some s) : BWInv s := by
+  have : (s.kind = .bounded ∧ s.cap = cap ∧ s.spin = false) ∧ BInv s ∧ BWInv s :=
+    Sys.inv_of_run (sysM false .bounded cap)
+      (fun s => (s.kind = .bounded ∧ s.cap = cap ∧ s.spin = false) ∧ BInv s ∧ BWInv s)
+      ⟨⟨rfl, rfl, rfl⟩, binv_init cap, bwinv_init cap⟩
       (fun s e s' hi hs => by
         obtain ⟨a, b⟩ := kind_step s s' e hs
-        exact ⟨⟨a.trans hi.1.1, b.trans hi.1.2⟩, binv_step s s' e hi.1.1 hi.2.1 hs,
-          bwinv_step s s' e hi.1.1 (by rw [hi.1.2]; exact hcap) hi.2.1 hi.2.2 hs⟩) h
+        exact ⟨⟨a.trans hi.1.1, b.trans hi.1.2.1, (spin_step s s' e hs).trans hi.1.2.2⟩,
+          binv_step s s' e hi.1.1 hi.2.1 hs,
+          bwinv_step s s' e hi.1.1 (by rw [hi.1.2.1]; exact hcap) hi.2.1 hi.2.2 hi.1.2.2 hs⟩) h
   exact this.2.2
 
 /-- `receiver_resumed` (bounded): the message with sequence number `low` is in its slot while
